@@ -1,5 +1,5 @@
 (* C20 property theorems. Nothing but statements closed by [exact]. *)
-From VF Require Import Base.Prelude Generated.Consts C20.Model C20.Proofs.
+From VF Require Import Base.Prelude Generated.Consts C20.Model C20.Proofs C20.Range C20.RangeProofs.
 
 Theorem C20_col_roundtrip : forall n, 1 <= n <= MaxColumns ->
   exists s, col_number_to_name n = Ok s /\ col_name_to_number s = Ok n /\
@@ -39,6 +39,21 @@ Proof.
 Qed.
 Print Assumptions C20_same_cell.
 
+(* range references (merged cells, validations, conditional formats, tables, filters, structural edits): rendering
+   the corners of any two cells of the grid as "A1:B2" (plain or with $) and reading the text back gives the same four
+   coordinates; sortCoordinates orders each pair of coordinates and keeps them *)
+Theorem C20_range_roundtrip : forall c1 r1 c2 r2 abs,
+  1 <= c1 <= MaxColumns -> 1 <= r1 <= TotalRows -> 1 <= c2 <= MaxColumns -> 1 <= r2 <= TotalRows ->
+  exists s, coords_to_range_ref (c1, r1, c2, r2) abs = Ok s /\ range_ref_to_coords s = Ok (c1, r1, c2, r2).
+Proof. exact range_roundtrip. Qed.
+Print Assumptions C20_range_roundtrip.
+
+Theorem C20_sort_coords : forall c1 r1 c2 r2,
+  sort_coords (c1, r1, c2, r2) = (Z.min c1 c2, Z.min r1 r2, Z.max c1 c2, Z.max r1 r2) /\
+  sort_coords (sort_coords (c1, r1, c2, r2)) = sort_coords (c1, r1, c2, r2).
+Proof. intros. split; [apply sort_coords_spec|apply sort_coords_idem]. Qed.
+Print Assumptions C20_sort_coords.
+
 (* non-vacuity and the former wrap-around witness *)
 Example C20_ex_accept : cell_name_to_coords [36;120;102;100;36;48;48;49;48;52;56;53;55;54] = Ok (16384, 1048576).
 Proof. vm_compute. reflexivity. Qed.
@@ -48,3 +63,5 @@ Example C20_ex_wrap_rejected :
   col_name_to_number [65;66;65;66;65;65;65;66;66;65;66;66;66;65;65;65;66;66;65;66;65;66;65;66;66;65;65;65;65;66;65;66;
                       66;65;66;65;66;66;66;66;66;65;66;65;65;66;65;66;65;66;65;65;66;65;66;66;65;65;65;66;65;65;66;65] = Err E_COLNUM.
 Proof. vm_compute. reflexivity. Qed.
+Example C20_ex_range : range_ref_to_coords [36;67;36;49;58;98;51] = Ok (3, 1, 2, 3) /\ sort_coords (3, 1, 2, 3) = (2, 1, 3, 3).
+Proof. vm_compute. split; reflexivity. Qed.
